@@ -20,8 +20,11 @@
 //                 For odd nsect the partition depends on the sign of the increment: both signs are tried, a violation
 //                 needs both to fail.  The literal convention "sector = floor(nsect*angle/2pi) of (target-datum), deal
 //                 from sector 0" is compared too, but only reported in the histogram (information).
+//   boundaries  = a candidate exactly on a sector boundary (decided exactly: rational coordinates => only multiples of 45 deg
+//                 can be boundaries) or at the target is NOT excluded: it may count in either adjacent sector (any sector for
+//                 the null increment) and the answer is accepted iff SOME such assignment satisfies (a)-(e).
 //   excluded    = what the property excludes, detected by the reference and counted: a candidate exactly on the radius,
-//                 a candidate on a sector boundary, a distance tie at a cut (membership then not judged, counts still are),
+//                 a distance tie at a cut (membership then not judged, counts still are),
 //                 and the case "enough candidates, but fewer than nmini left after the per-sector quota", where the word
 //                 "qualify" of the statement is ambiguous (either answer accepted).
 //
